@@ -45,6 +45,11 @@ ASSUMPTIONS = [
     "device-written -> in+out, no device access -> no clause) is executed too and "
     "must reproduce the host run (otherwise the harness fails)",
     "clauses are read from the '!$acc data' line printed by FortranWriter",
+    "the corpus has one array per storage class: a, b, c, q intent(inout), d "
+    "intent(out) (passed undefined), e intent(in), w local; only values that are "
+    "DEFINED at data-region entry create a copy-in need (an array nothing has "
+    "defined yet may be copyout), but an array touched on the device must be "
+    "present under default(present)",
 ]
 BLOCK = {"quick": 4, "thorough": 16}
 PLACEMENTS = ("K", "KR", "P")
